@@ -17,7 +17,7 @@
      run_ghost              run_fsm with a ghost: the time of the last SYNC -> ESTABLISHED transition since the
                             last stop (history), to which the code's own last_update is compared (tracks)      *)
 From Coq Require Import Permutation.
-From RtrV Require Gen.GeneratedFsm Rtr.FsmTie Rtr.ExpiryProofs Gen.GeneratedFsm2 Rtr.FsmTie2.
+From RtrV Require Gen.GeneratedFsm Rtr.FsmTie Rtr.ExpiryProofs Gen.GeneratedFsm2 Rtr.FsmTie2 Rtr.FsmRun.
 From RtrV Require Import Base.CSem Gen.Generated Rtr.RtrModel Rtr.SyncSets Rtr.ExpiryFrames Rtr.ExpirySync
   Rtr.ConvergeStutter Rtr.ExpiryProofs.
 Local Open Scope Z_scope.
@@ -151,6 +151,12 @@ Theorem C07_fsm_step_translated : forall fuel w, Rtr.FsmTie.c_range w -> st (sk 
   Some (Rtr.FsmTie.res_const (fsm_step fuel w) 0).
 Proof. intros fuel w HC Hn. apply Rtr.FsmTie.fsm_step_tie_world; [apply Rtr.FsmTie.c_range_step, HC|exact Hn]. Qed.
 
+(* ... and iterated: the translated loop, run n times, is the model's run_fsm n, for every run in which the fields stay in their C
+   ranges and no stop event arrives (Rtr/FsmRun.v; a stop makes run_fsm call rtr_stop, which has its own tie below) *)
+Theorem C07_run_translated : forall n fuel w, Rtr.FsmRun.ranges_ok n fuel w ->
+  Rtr.FsmTie.run_c n fuel w = Some (run_fsm n fuel w).
+Proof. exact Rtr.FsmRun.run_c_tie. Qed.
+
 Example C07_fsm_translation_examples :
   Gen.GeneratedFsm.fsm_translator_problems = [] /\ Rtr.FsmTie.c_range Rtr.ExpiryProofs.ex_w0 /\
   Rtr.FsmTie.run_c 6 100 Rtr.ExpiryProofs.ex_w0 = Some (run_fsm 6 100 Rtr.ExpiryProofs.ex_w0).
@@ -179,3 +185,4 @@ Print Assumptions C07_interrupted_reload_example.
 Print Assumptions C07_purge_translated.
 Print Assumptions C07_fsm_step_translated.
 Print Assumptions C07_stop_translated.
+Print Assumptions C07_run_translated.
